@@ -151,6 +151,7 @@ type FnTrans struct {
 	havocAll          bool
 	lastCall          *ssa.CallCommon // the call whose ghost positions are being executed
 	genCount          int
+	callArgRefs       []string // reference-typed arguments of the call being applied (for debts-change callees)
 	panicCount        int
 	genMerges         map[string]genMerge
 	useBytes          bool
